@@ -1,7 +1,7 @@
 """Assembly of all contract modules, per-property metadata."""
-from . import base, iface, c_output
+from . import base, iface, c_output, c_input, c_time
 
-MODULES = [c_output]
+MODULES = [c_output, c_input, c_time]
 
 LEVEL = {}          # property -> evidence level (default "proof")
 EXPLAIN = {}        # property -> what the run covers
@@ -13,6 +13,7 @@ REPLAY = {}         # function qualname (or (qualname, self_cls)) -> replay driv
 def register(reg):
     base.schema(reg)
     base.schema2(reg)
+    base.schema3(reg)
     iface.register(reg)
     for m in MODULES:
         m.register(reg)
